@@ -25,35 +25,37 @@ theorem implNodes_onlyAdds (S : Schema) (o : VOpts) (cx : Cx) (ks : List STree) 
   · exact Or.inl h
   · exact Or.inr ⟨h1, h2⟩
 
-theorem implChoices_onlyAdds (X : SchemaX) (o : VOpts) (cx : Cx) (ks : List STree) (sibs : List DNode) :
-    OnlyAdds sibs (implChoices X o cx ks sibs).1 := by
+/-- a reflexive, transitive relation between sibling lists that every `implNodes` pass satisfies holds for `implChoices` (all variants) -/
+theorem implChoices_rel (X : SchemaX) (o : VOpts) (cx : Cx) (R : List DNode → List DNode → Prop) (hrefl : ∀ a, R a a)
+    (htrans : ∀ a b c, R a b → R b c → R a c) (hnodes : ∀ ks sibs, R sibs (implNodes X.base o cx ks sibs).1)
+    (ks : List STree) (sibs : List DNode) : R sibs (implChoices X o cx ks sibs).1 := by
   apply implChoices.induct X o cx
-    (motive_1 := fun ks sibs => OnlyAdds sibs (implChoices X o cx ks sibs).1)
-    (motive_2 := fun t sibs => OnlyAdds sibs (implChoice X o cx t sibs).1)
-    (motive_3 := fun sid ks sibs => OnlyAdds sibs (implCaseHolding X o cx sid ks sibs).1)
-    (motive_4 := fun t sibs => OnlyAdds sibs (implCase X o cx t sibs).1)
-    (motive_5 := fun target ks sibs => OnlyAdds sibs (implInto X o cx target ks sibs).1)
-    (motive_6 := fun target t sibs => OnlyAdds sibs (implIntoCase X o cx target t sibs).1)
-    (motive_7 := fun target ks sibs => OnlyAdds sibs (implIntoKids X o cx target ks sibs).1)
-    (motive_8 := fun target t sibs => OnlyAdds sibs (implIntoChoice X o cx target t sibs).1)
-    (motive_9 := fun nm ks sibs => OnlyAdds sibs (implCaseNamed X o cx nm ks sibs).1)
+    (motive_1 := fun ks sibs => R sibs (implChoices X o cx ks sibs).1)
+    (motive_2 := fun t sibs => R sibs (implChoice X o cx t sibs).1)
+    (motive_3 := fun sid ks sibs => R sibs (implCaseHolding X o cx sid ks sibs).1)
+    (motive_4 := fun t sibs => R sibs (implCase X o cx t sibs).1)
+    (motive_5 := fun target ks sibs => R sibs (implInto X o cx target ks sibs).1)
+    (motive_6 := fun target t sibs => R sibs (implIntoCase X o cx target t sibs).1)
+    (motive_7 := fun target ks sibs => R sibs (implIntoKids X o cx target ks sibs).1)
+    (motive_8 := fun target t sibs => R sibs (implIntoChoice X o cx target t sibs).1)
+    (motive_9 := fun nm ks sibs => R sibs (implCaseNamed X o cx nm ks sibs).1)
   -- implChoice
   · intro sid i cases sibs h
-    unfold implChoice; simp only [h, if_true]; exact OnlyAdds.refl _
+    unfold implChoice; simp only [h, if_true]; exact hrefl _
   · intro sid i cases sibs h hfd nm hnm ih
     unfold implChoice; simp only [h, Bool.false_eq_true, if_false, hfd, hnm]; exact ih
   · intro sid i cases sibs h hfd hnm
-    unfold implChoice; simp only [h, Bool.false_eq_true, if_false, hfd, hnm]; exact OnlyAdds.refl _
+    unfold implChoice; simp only [h, Bool.false_eq_true, if_false, hfd, hnm]; exact hrefl _
   · intro sid i cases sibs h node hfd hq target ht ih
     unfold implChoice; simp only [h, Bool.false_eq_true, if_false, hfd, hq, if_true, ht]; exact ih
   · intro sid i cases sibs h node hfd hq ht
-    unfold implChoice; simp only [h, Bool.false_eq_true, if_false, hfd, hq, if_true, ht]; exact OnlyAdds.refl _
+    unfold implChoice; simp only [h, Bool.false_eq_true, if_false, hfd, hq, if_true, ht]; exact hrefl _
   · intro sid i cases sibs h node hfd hq ih
     unfold implChoice; simp only [h, Bool.false_eq_true, if_false, hfd, hq]; exact ih
   -- implCase
   · intro sid i cases sibs ih
     unfold implCase
-    exact ih.trans (implNodes_onlyAdds _ _ _ _ _)
+    exact htrans _ _ _ ih (hnodes _ _)
   -- implIntoCase
   · intro target sid i cases sibs ih
     unfold implIntoCase; exact ih
@@ -61,38 +63,51 @@ theorem implChoices_onlyAdds (X : SchemaX) (o : VOpts) (cx : Cx) (ks : List STre
   · intro target sid i cases sibs h ih
     unfold implIntoChoice; simp only [h, if_true]; exact ih
   · intro target sid i cases sibs h
-    unfold implIntoChoice; simp only [h, Bool.false_eq_true, if_false]; exact OnlyAdds.refl _
+    unfold implIntoChoice; simp only [h, Bool.false_eq_true, if_false]; exact hrefl _
   -- implChoices
-  · intro sibs; unfold implChoices; exact OnlyAdds.refl _
+  · intro sibs; unfold implChoices; exact hrefl _
   · intro k ks sibs _ ih1 ih2
     unfold implChoices
-    exact ih1.trans ih2
+    exact htrans _ _ _ ih1 ih2
   -- implCaseHolding
-  · intro sid sibs; unfold implCaseHolding; exact OnlyAdds.refl _
+  · intro sid sibs; unfold implCaseHolding; exact hrefl _
   · intro sid k ks sibs h ih
     unfold implCaseHolding; simp only [h, if_true]; exact ih
   · intro sid k ks sibs h ih
     unfold implCaseHolding; simp only [h, Bool.false_eq_true, if_false]; exact ih
   -- implInto
-  · intro target sibs; unfold implInto; exact OnlyAdds.refl _
+  · intro target sibs; unfold implInto; exact hrefl _
   · intro target k ks sibs r1 ih1 ih2 ih3
     unfold implInto
-    refine OnlyAdds.trans ?_ ih3
-    show OnlyAdds sibs (if (k.sid == target) = true then implCase X o cx k sibs else implIntoCase X o cx target k sibs).1
+    refine htrans _ _ _ ?_ ih3
+    show R sibs (if (k.sid == target) = true then implCase X o cx k sibs else implIntoCase X o cx target k sibs).1
     split
     · exact ih1
     · exact ih2
   -- implIntoKids
-  · intro target sibs; unfold implIntoKids; exact OnlyAdds.refl _
+  · intro target sibs; unfold implIntoKids; exact hrefl _
   · intro target k ks sibs _ ih1 ih2
     unfold implIntoKids
-    exact ih1.trans ih2
+    exact htrans _ _ _ ih1 ih2
   -- implCaseNamed
-  · intro nm sibs; unfold implCaseNamed; exact OnlyAdds.refl _
+  · intro nm sibs; unfold implCaseNamed; exact hrefl _
   · intro nm k ks sibs h ih
     unfold implCaseNamed; simp only [h, if_true]; exact ih
   · intro nm k ks sibs h ih
     unfold implCaseNamed; simp only [h, Bool.false_eq_true, if_false]; exact ih
+
+theorem implChoices_onlyAdds (X : SchemaX) (o : VOpts) (cx : Cx) (ks : List STree) (sibs : List DNode) :
+    OnlyAdds sibs (implChoices X o cx ks sibs).1 :=
+  implChoices_rel X o cx OnlyAdds OnlyAdds.refl (fun _ _ _ h1 h2 => h1.trans h2) (fun ks sibs => implNodes_onlyAdds _ _ _ ks sibs) ks sibs
+
+/-- nothing that was there goes -/
+theorem implL_keeps (X : SchemaX) (o : VOpts) (cx : Cx) (ks : List STree) (sibs : List DNode) :
+    ∀ x ∈ sibs, x ∈ (implL X o cx ks sibs).1 := by
+  unfold implL
+  intro x hx
+  exact implNodes_mono _ _ _ _ _ x
+    (implChoices_rel X o cx (fun a b => ∀ x ∈ a, x ∈ b) (fun _ _ h => h) (fun _ _ _ h1 h2 x hx => h2 x (h1 x hx))
+      (fun ks sibs => implNodes_mono _ _ _ ks sibs) ks sibs x hx)
 
 theorem implL_onlyAdds (X : SchemaX) (o : VOpts) (cx : Cx) (ks : List STree) (sibs : List DNode) :
     OnlyAdds sibs (implL X o cx ks sibs).1 := by
